@@ -37,21 +37,37 @@ def _signs(d, k):
     return s
 
 
-def leapfrog(q, p, eps, L, minv, grad, eta=0.0):
+def leapfrog(q, p, eps, L, minv, grad, eta=0.0, rel=False, minv_pert=None, eta_q=None, gabs=None):
     """returns dict(q, p, traj=[(q_k, p_k) k=0..L], scale, finite).
 
     eta > 0 injects a deterministic relative perturbation of that size into every gradient
     evaluation and every position update (the round-off probe: the deviation from the
     eta = 0 run, divided by eta, predicts how strongly this trajectory amplifies rounding
-    errors made along the way)."""
+    errors made along the way).
+
+    rel=True (scale-free probe for targets / mass matrices of mixed scales): every operation gets a
+    component-wise *relative* perturbation of its inputs and its result - the gradient is evaluated at
+    q*(1+eta s1) and multiplied by (1+eta s2), the drift uses M^-1 computed from a relatively perturbed
+    mass matrix (minv_pert) applied to p*(1+eta s3), and the new position is multiplied by
+    (1+eta_q s4). This is the first-order model of floating point error with unit round-off eta."""
     q = np.array(q, dtype=float)
     p = np.array(p, dtype=float)
     d = q.size
     traj = [(q.copy(), p.copy())]
     scale = max(1.0, float(np.max(np.abs(q))), float(np.max(np.abs(p))))
     finite = True
+    if eta_q is None:
+        eta_q = eta
+    mv = minv_pert if (eta and rel and minv_pert is not None) else minv
 
     def G(x, k):
+        if eta and rel:
+            # signs depend on the component only: errors of the same sign at every step accumulate
+            # linearly (signs alternating with the step would cancel and understate the accumulation)
+            g = np.asarray(grad(x * (1.0 + eta * _signs(d, 1))), dtype=float)
+            # gabs = sum of the magnitudes of the terms the gradient is made of (cancellation inside it)
+            mag = np.abs(g) if gabs is None else np.asarray(gabs(x), dtype=float)
+            return g + eta * _signs(d, 0) * mag
         g = np.asarray(grad(x), dtype=float)
         if eta:
             g = g * (1.0 + eta * _signs(d, k))
@@ -62,9 +78,13 @@ def leapfrog(q, p, eps, L, minv, grad, eta=0.0):
         ph = p + 0.5 * eps * g
         pk = p
         for k in range(L):
-            q = q + eps * apply_minv(minv, ph)
-            if eta:
-                q = q + eta * _signs(d, k + 1) * np.maximum(1.0, np.abs(q))
+            if eta and rel:
+                q = q + eps * apply_minv(mv, ph * (1.0 + eta * _signs(d, 0)))
+                q = q * (1.0 + eta_q * _signs(d, 1))
+            else:
+                q = q + eps * apply_minv(minv, ph)
+                if eta:
+                    q = q + eta * _signs(d, k + 1) * np.maximum(1.0, np.abs(q))
             g = G(q, k + 1)
             pk = ph + 0.5 * eps * g
             traj.append((q.copy(), pk.copy()))
@@ -75,6 +95,30 @@ def leapfrog(q, p, eps, L, minv, grad, eta=0.0):
                 break
             scale = max(scale, float(np.max(np.abs(q))), float(np.max(np.abs(pk))), float(eps * np.max(np.abs(g))))
     return {"q": q, "p": pk, "traj": traj, "scale": scale, "finite": finite}
+
+
+def perturbed_inverse(mass, eta):
+    """inverse of the mass matrix with every entry perturbed relatively by eta (symmetric sign pattern):
+    what an inverse computed in arithmetic of unit round-off eta may look like (error ~ cond * eta)"""
+    mass = np.asarray(mass, dtype=float)
+    if mass.ndim == 1:
+        return 1.0 / (mass * (1.0 + eta * _signs(mass.size, 0)))
+    s = _signs(mass.shape[0], 0)
+    return np.linalg.inv(mass * (1.0 + eta * np.outer(s, s)))
+
+
+def probe_rel(q, p, eps, L, mass, grad, base, eta=1e-9, eta_q=1e-11, gabs=None):
+    """scale-free round-off probe: component-wise deviation (max over the trajectory) of the relatively
+    perturbed run from the base run; returns (dev_q, dev_p, perturbed run) or None when not finite"""
+    pert = leapfrog(q, p, eps, L, invert_mass(mass), grad, eta=eta, rel=True, minv_pert=perturbed_inverse(mass, eta), eta_q=eta_q, gabs=gabs)
+    if not pert["finite"] or len(pert["traj"]) != len(base["traj"]):
+        return None
+    dq = np.zeros(len(base["q"]))
+    dp = np.zeros(len(base["q"]))
+    for (qa, pa), (qb, pb) in zip(base["traj"], pert["traj"]):
+        dq = np.maximum(dq, np.abs(qa - qb))
+        dp = np.maximum(dp, np.abs(pa - pb))
+    return dq, dp, pert
 
 
 def probe(q, p, eps, L, minv, grad, base=None, eta=1e-9):
@@ -155,6 +199,18 @@ class Block:
         return -self.prec @ (x - self.loc)
 
 
+def _block_gabs(b, x):
+    x = np.asarray(x, dtype=float)
+    with np.errstate(all="ignore"):
+        if b.kind == "normal":
+            return (np.abs(x) + np.abs(b.loc)) / (b.scale * b.scale)
+        if b.kind == "gamma":
+            return np.abs(b.conc) + b.rate * np.exp(x)
+        if b.kind == "gamma_raw":
+            return np.abs(b.conc - 1.0) / np.abs(x) + b.rate
+        return np.abs(b.prec) @ (np.abs(x) + np.abs(b.loc))
+
+
 class BlockTarget:
     """independent blocks, one per parameter, concatenated in order"""
 
@@ -179,3 +235,8 @@ class BlockTarget:
         q = np.asarray(q, dtype=float)
         with np.errstate(all="ignore"):
             return np.concatenate([b.grad(x) for b, x in zip(self.blocks, self._split(q))])
+
+    def gabs(self, q):
+        """sum of the magnitudes of the terms each gradient component is computed from"""
+        q = np.asarray(q, dtype=float)
+        return np.concatenate([_block_gabs(b, x) for b, x in zip(self.blocks, self._split(q))])
